@@ -40,6 +40,18 @@ def stream_multisets(inst, K: int, max_n: int, cps=(1, 2), dts=(0, 1), iso=True,
         yield [types[i] for i in idx]
 
 
+def crowds(inst, K: int = 4, cps=(1, 2), dts=(1,), iso=True):
+    """A handful of LARGE problems built from the same lattice: every stream type at once, every second / third one, the first and
+    the second half. The enumerations elsewhere stop at 2-4 streams; anything that depends on the NUMBER of streams or rows
+    (a threshold like 'more than ten', an index that only goes wrong past a size) needs problems of realistic size."""
+    types = A.stream_types(inst, K, cps, dts, iso)
+    n = len(types)
+    picks = [list(range(n)), list(range(0, n, 2)), list(range(1, n, 2)), list(range(0, n, 3)), list(range(n // 2)), list(range(n // 2, n)),
+             [i for i in range(n) if i % 4 in (0, 3)]]
+    for pk in picks:
+        yield [types[i] for i in pk]
+
+
 def utility_sets(inst, K: int, level: str = "small") -> List[List[dict]]:
     """Utility alphabets (Sigma_U). Temperatures relative to the K-point lattice.
 
